@@ -313,6 +313,11 @@ def run(ctx):
         from rules.common import pop_until_exhausted_rule
         pop_until_exhausted_rule(r, ctx)
 
+    with ctx.rule("C02.R12", "T2", "the sender lent out of Uplinks.writer always comes back: as a WriteTask or into the slot (shared with C01.R7)", floor=4) as r:
+        # a sender that is dropped leaves the remote attached and linked while nothing is ever written to it again (F61)
+        uplinks.writer_token(r, ctx)
+
+
 
 def is_ret_call(body, c):
     return c.dest[0] == 0 and not c.dest[1]
